@@ -180,7 +180,10 @@ def gen_history(rng, n_ops, k=0, wb=False):
     n0 = DOTNAMES[k % len(DOTNAMES)]
     for par in (0, 5):
         ops.append({'op': 'lookup', 'p': par, 'name': n0}); ni += 1
-        ops.append({'op': 'mkdir', 'p': par, 'name': n0, 'mode': 0o750, 'umask': 0, 'uid': 0, 'gid': 0}); ni += 1
+        # (root parent: created for a non-root caller -- with inode_file_handles this needs the parent descriptor to be
+        # obtained before the credentials are switched, for mkdir and symlink as for mknod and create)
+        cu = 1000 if par == 0 else 0
+        ops.append({'op': 'mkdir', 'p': par, 'name': n0, 'mode': 0o750, 'umask': 0, 'uid': cu, 'gid': cu}); ni += 1
         ops.append({'op': 'lookup', 'p': par, 'name': n0}); ni += 1
         ops.append({'op': 'lookup', 'p': ni - 1, 'name': b'..'}); ni += 1
         ops.append({'op': 'rmdir', 'p': par, 'name': n0})
@@ -189,15 +192,30 @@ def gen_history(rng, n_ops, k=0, wb=False):
         ops.append({'op': 'lookup', 'p': par, 'name': n0}); ni += 1
         ops.append({'op': 'getattr', 'i': ni - 1, 'h': None})
         ops.append({'op': 'link', 'i': ci, 'p': par, 'name': n0 + b'L'}); ni += 1
-        ops.append({'op': 'symlink', 'p': par, 'name': n0 + b's', 'target': b'f1', 'uid': 0, 'gid': 0}); ni += 1
+        ops.append({'op': 'symlink', 'p': par, 'name': n0 + b's', 'target': b'f1', 'uid': cu, 'gid': cu}); ni += 1
         ops.append({'op': 'readlink', 'i': ni - 1})
-        ops.append({'op': 'mknod', 'p': par, 'name': n0 + b'm', 'mode': 0o010600, 'rdev': 0, 'umask': 0, 'uid': 0, 'gid': 0}); ni += 1
+        ops.append({'op': 'mknod', 'p': par, 'name': n0 + b'm', 'mode': 0o010600, 'rdev': 0, 'umask': 0, 'uid': cu, 'gid': cu}); ni += 1
         ops.append({'op': 'rename', 'p': par, 'name': n0, 'p2': par, 'name2': n0 + b'r', 'flags': 0})
         ops.append({'op': 'lookup', 'p': par, 'name': n0}); ni += 1
         ops.append({'op': 'lookup', 'p': par, 'name': n0 + b'r'}); ni += 1
         for suffix in (b'r', b'L', b's', b'm'):
             ops.append({'op': 'unlink', 'p': par, 'name': n0 + suffix})
         ops.append({'op': 'lookup', 'p': par, 'name': n0 + b'L'}); ni += 1
+    # special files and links are never opened for I/O, through any opening request: open, the per-request descriptors of
+    # read/write/fallocate/fsync under no_open, setattr(size), create on the existing name (symlink l1 = slot 8, FIFO ff = slot 9,
+    # plus a socket and a character device made through mknod)
+    ops.append({'op': 'mknod', 'p': 0, 'name': b'sock', 'mode': 0o140666, 'rdev': 0, 'umask': 0, 'uid': 0, 'gid': 0}); sk = ni; ni += 1
+    ops.append({'op': 'mknod', 'p': 0, 'name': b'cdev', 'mode': 0o020666, 'rdev': 0x103, 'umask': 0, 'uid': 0, 'gid': 0}); cd = ni; ni += 1
+    for sp in (8, 9, sk, cd):
+        ops.append({'op': 'open', 'i': sp, 'flags': O_RDWR | O_NONBLOCK, 'fuse_flags': 0}); sh = nh; nh += 1; hflags.append(O_RDWR | O_NONBLOCK)
+        ops.append({'op': 'read', 'i': sp, 'h': sh, 'size': 4, 'off': 0, 'flags': O_RDWR | O_NONBLOCK})
+        ops.append({'op': 'write', 'i': sp, 'h': sh, 'off': 0, 'data': b'x', 'flags': O_RDWR | O_NONBLOCK, 'fuse_flags': 0})
+        ops.append({'op': 'fallocate', 'i': sp, 'h': sh, 'mode': 0, 'off': 0, 'len': 4})
+        ops.append({'op': 'fsync', 'i': sp, 'h': sh})
+        ops.append({'op': 'setattr', 'i': sp, 'h': None, 'valid': 8, 'mode': 0, 'uid': 0, 'gid': 0, 'size': 0})
+        ops.append({'op': 'getattr', 'i': sp, 'h': None})
+    for nm_ in (b'sock', b'cdev'):
+        ops.append({'op': 'create', 'p': 0, 'name': nm_, 'mode': 0o644, 'umask': 0, 'flags': O_RDWR | O_NONBLOCK, 'fuse_flags': 0, 'uid': 0, 'gid': 0}); ni += 1; nh += 1; hflags.append(O_RDWR | O_NONBLOCK)
     # twins of open/release/fsync on directories, and flush: opendir / fsyncdir / releasedir on the root and a subdirectory,
     # flush + release of a file handle (fsyncdir is compared with the direct calls only; it is not in the Coq model)
     for dslot in (0, 5):
